@@ -15,6 +15,7 @@ import hashlib
 import json
 import math
 import random
+import re
 import warnings
 from collections import Counter
 from typing import Any
@@ -37,6 +38,7 @@ FUNCS = {
     "neg": lambda x: -x,
     "ceil": np.ceil,
     "floor": np.floor,
+    "round": np.round,
 }
 BINOPS = {
     "+": lambda a, b: a + b,
@@ -45,7 +47,9 @@ BINOPS = {
     "/": lambda a, b: a / b,
     "//": lambda a, b: a // b,
     "%": lambda a, b: a % b,
-    "**": lambda a, b: a**b,
+    # numpy's power (x*x fast path for squares), which is what the library's
+    # ParamObj evaluates; Python's float pow can differ from it by one ulp
+    "**": lambda a, b: a**b if not isinstance(a, float) else (np.float64(a) ** b).item(),
 }
 
 
@@ -335,6 +339,22 @@ def seq_key(seq) -> tuple:
     return (snap.timeline_key(), snap.phase_key(), fl, rk)
 
 
+_TWO_PI = 2 * math.pi
+
+
+def keys_close(a, b) -> bool:
+    """Equality of two seq_key()s up to floating-point noise in the stored
+    floats (1e-9), phases taken modulo 2 pi: a serialisation round trip rebuilds
+    Pulse(phase=p) from a stored p that may be exactly 2 pi (the float result of
+    `-1e-17 % 2 pi`), which the constructor then reduces to 0.0."""
+    if isinstance(a, tuple) and isinstance(b, tuple):
+        return len(a) == len(b) and all(keys_close(x, y) for x, y in zip(a, b))
+    if isinstance(a, float) and isinstance(b, float):
+        d = abs(a - b)
+        return d <= 1e-9 * max(1.0, abs(a)) or abs(d - _TWO_PI) <= 1e-9 or (a != a and b != b)
+    return a == b
+
+
 def key_diff(a: tuple, b: tuple) -> str:
     names = ("timeline", "phase references", "flags", "register")
     for n, x, y in zip(names, a, b):
@@ -362,6 +382,7 @@ def _lift_float(rng: random.Random, x: float, v0: dict, names: dict):
     forms = []
     if a0:
         forms += ["mul", "add", "rsub", "nest", "sqrt", "cos", "pow", "div", "neg", "tanh", "exp", "mod"]
+        forms += ["round", "floor", "ceil", "abs", "log", "log2", "sin", "tan"]
     if arr0:
         forms += ["item", "item_add"]
     if not forms:
@@ -382,6 +403,12 @@ def _lift_float(rng: random.Random, x: float, v0: dict, names: dict):
         return {"e": "bin", "op": "+", "a": {"e": "fn", "f": "cos", "a": A}, "b": x - math.cos(a0)}
     if f == "tanh":
         return {"e": "bin", "op": "+", "a": {"e": "fn", "f": "tanh", "a": A}, "b": x - math.tanh(a0)}
+    if f in ("round", "floor", "ceil"):
+        # round(10 a) etc.: the offset keeps the value at x under v0
+        inner = {"e": "bin", "op": "*", "a": A, "b": 10.0}
+        return {"e": "bin", "op": "+", "a": {"e": "fn", "f": f, "a": inner}, "b": x - float(FUNCS[f](a0 * 10.0))}
+    if f in ("abs", "log", "log2", "sin", "tan"):
+        return {"e": "bin", "op": "+", "a": {"e": "fn", "f": f, "a": A}, "b": x - float(FUNCS[f](a0))}
     if f == "exp":
         return {"e": "bin", "op": "*", "a": {"e": "fn", "f": "exp", "a": {"e": "fn", "f": "neg", "a": A}}, "b": x / math.exp(-a0)}
     if f == "pow":
@@ -612,6 +639,8 @@ def gen_history(rng: random.Random, world: dict, profile: dict) -> list:
             hist.append({"op": "t_sibling", "kind": G.pick(rng, ["switch_register", "switch_device"]), "i": rng.randrange(na), "m": rng.randrange(nm)})
         elif k == "restart":
             hist.append({"op": "t_restart", "kind": G.pick(rng, ["abstract", "abstract", "legacy"])})
+        elif k == "built_restart":
+            hist.append({"op": "t_built_restart", "kind": G.pick(rng, ["abstract", "abstract", "legacy"]), "i": rng.randrange(na), "m": rng.randrange(nm)})
         else:
             hist.append({"op": "cache_clear"})
     return hist
@@ -666,7 +695,7 @@ class TemplateRun:
             self.viol(f"{label}/build-accepted-invalid", step, f"{who}({vals}) returned a sequence but issuing the same calls directly raises at {d_err}")
         elif not b_err:
             kb, kd = seq_key(B), seq_key(D)
-            if kb != kd:
+            if not keys_close(kb, kd):
                 self.viol(f"{label}/build-differs", step, f"{who}({vals}{', qubits=%s' % qubits if qubits else ''}) differs from direct construction: {key_diff(kb, kd)}")
             return kb
         return ("raised",)
@@ -688,7 +717,7 @@ class TemplateRun:
             vals, qubits = self._vals(op["i"]), self._qubits(op["m"])
             key = self.compare_build(i, T, vals, qubits, "C08")
             rk = (json.dumps(vals, sort_keys=True), json.dumps(qubits, sort_keys=True))
-            if rk in self.results and self.results[rk] != key:
+            if rk in self.results and not keys_close(self.results[rk], key):
                 self.viol("C08/not-reproducible", i, f"two builds with the same values {vals} gave different sequences")
             elif rk in self.results:
                 self.stats["probe/repeated_build"] += 1
@@ -721,7 +750,7 @@ class TemplateRun:
                     D, d_err = self.tw.direct(v2, qubits, self.mask)
                     if (b_err is None) != (d_err is None):
                         self.viol("C08/build-differs", i, f"build with an extra unknown name: build {'raised' if b_err else 'ok'}, direct {'raised' if d_err else 'ok'}")
-                    elif not b_err and seq_key(B) != seq_key(D):
+                    elif not b_err and not keys_close(seq_key(B), seq_key(D)):
                         self.viol("C08/build-differs", i, "build with an extra unknown name differs from direct construction")
                 else:
                     self.compare_build(i, T, vals, qubits, "C08", who="failing-build")
@@ -758,9 +787,58 @@ class TemplateRun:
             self.check_template_unchanged(i, "a sibling's build")
         elif k == "t_restart":
             self.restart(i, op)
+        elif k == "t_built_restart":
+            self.built_restart(i, op)
         elif k == "cache_clear":
             env.clear_caches()
         self.h.update((json.dumps(op, sort_keys=True) + "|" + str(len(self.violations)) + "\n").encode())
+
+    def _ok_refusal(self, kind, e) -> bool:
+        """The only refusals the property leaves open: the legacy coder covers
+        built-in and virtual devices only (a custom physical device class is not
+        serialisable), and nothing else."""
+        if kind == "legacy":
+            return self.world["device"]["kind"] == "physical"
+        return False
+
+    def built_restart(self, i, op):
+        """Round trip of the BUILT sequence (the instance a user submits)."""
+        from pulser import Sequence
+
+        kind = op["kind"]
+        vals, qubits = self._vals(op["i"]), self._qubits(op["m"])
+        B, b_err = self._build(self.tw.T, vals, qubits)
+        if b_err:
+            self.stats["built_restart/build_refused"] += 1
+            return
+        try:
+            with warnings.catch_warnings():
+                warnings.simplefilter("ignore")
+                if kind == "abstract":
+                    s = B.to_abstract_repr(skip_validation=True)
+                    B2 = Sequence.from_abstract_repr(s)
+                else:
+                    B2 = Sequence._deserialize(B._serialize())
+        except Exception as e:  # noqa: BLE001
+            name = type(e).__name__
+            self.stats[f"built_restart_refused/{kind}/{name}"] += 1
+            if not self._ok_refusal(kind, e):
+                self.viol("C04/built-serialise-raised", i, f"{kind} round trip of build({vals}) raised {name}: {str(e)[:140]}")
+            return
+        self.stats[f"probe/built_restart_{kind}"] += 1
+        if kind == "abstract" and self.n_validated < 3:
+            self.n_validated += 1
+            from pulser.json.abstract_repr.validation import validate_abstract_repr
+
+            try:
+                validate_abstract_repr(s, "sequence")
+                self.stats["probe/built_schema_validated"] += 1
+            except Exception as e:  # noqa: BLE001
+                self.viol("C04/built-schema-invalid", i, f"abstract representation of build({vals}) is not schema-valid: {type(e).__name__}: {str(e)[:140]}")
+        k1, k2 = seq_key(B), seq_key(B2)
+        if not keys_close(k1, k2):
+            self.viol("C04/built-roundtrip-differs", i, f"{kind} round trip of build({vals}) differs: {key_diff(k1, k2)}")
+        self.check_template_unchanged(i, "serialising a built sequence")
 
     def restart(self, i, op):
         from pulser import Sequence
@@ -778,7 +856,8 @@ class TemplateRun:
         except Exception as e:  # noqa: BLE001
             name = type(e).__name__
             self.stats[f"restart_refused/{kind}/{name}"] += 1
-            ok_refusal = name == "AbstractReprError" if kind == "abstract" else (self.world["device"]["kind"] == "physical" or name.startswith("SerializationSupport"))
+            self.stats[f"restart_refused_msg/{kind}/{name}: {re.sub(r'[0-9.]+', '#', str(e))[:70]}"] += 1
+            ok_refusal = self._ok_refusal(kind, e)
             if not ok_refusal:
                 self.viol("C04/param-serialise-raised", i, f"{kind} round trip of the template raised {name}: {str(e)[:140]}")
             return
@@ -802,7 +881,7 @@ class TemplateRun:
                 self.viol("C04/param-roundtrip-differs", i, f"after the {kind} round trip build({vals}) {'raises ' + str(e2) if e2 else 'succeeds'} while the original {'raises ' + str(e1) if e1 else 'succeeds'}")
             elif e1 is None:
                 k1, k2 = seq_key(B1), seq_key(B2)
-                if k1 != k2:
+                if not keys_close(k1, k2):
                     self.viol("C04/param-roundtrip-differs", i, f"after the {kind} round trip build({vals}) differs: {key_diff(k1, k2)}")
         if sorted(T.declared_variables) != sorted(T2.declared_variables):
             self.viol("C04/param-roundtrip-differs", i, "declared variables differ after the round trip")
